@@ -65,6 +65,10 @@ def run(ck: Checker, prog: Program, tier: str):
     ck.guard(S.check_estimators, ck, prog, "C05.R3")
     ck.guard(S.check_alias_discipline, ck, prog, "C05.R3", floor=3)
     ck.guard(S.check_distribution_names, ck, prog, "C05.R3")
+    # ... and the distribution a user names on the command line is the one the written statistics are computed under (rule of C19)
+    from . import c19
+    with ck.borrow(c19, "C05.R3+"):
+        ck.guard(c19._distribution_options, ck, prog)
     ck.guard(S.check_accessor_table, ck, prog, cls, "C05.R3", TABLE, GUARDS)
     ck.guard(_cov, ck, prog, cls, "C05.R3", weighted=False)
     ck.guard(S.check_mask_lockstep, ck, prog, "C05.R4")
